@@ -447,7 +447,9 @@ example : (step (fun _ => .ok) (after demo) (.getBy "a")).1 = after demo :=
 mirrors (re-extracted on every run; a recognised deviating form — `swap_remove`, the forward insert
 before the presence check, no same-owner early return, detaching from the wrong list, `insert(0, …)`,
 `last()`, a reverse-index entry left behind, a purge guard other than the ownership comparison, a `lock()`
-that unwraps a poisoned mutex instead of recovering the guard — makes this theorem fail). Dropping the defensive ownership comparison in `remove` altogether is accepted: under
+that unwraps a poisoned mutex instead of recovering the guard, any timer / sleep / timeout / retry / thread
+hand-off inside `impl PeerRegistry` (the model has no notion of time: a send takes as long as the sink takes) —
+makes this theorem fail). Dropping the defensive ownership comparison in `remove` altogether is accepted: under
 the invariant it always succeeds (`Lemmas.remove_eqs`). -/
 theorem source_forms :
     Gen.Peers.aliasPresenceCheckFirst = true ∧ Gen.Peers.aliasSameOwnerEarlyReturn = true ∧
@@ -456,7 +458,7 @@ theorem source_forms :
     Gen.Peers.removeTakesIndexEntry = true ∧
     (Gen.Peers.removePurgeGuard = "forward_eq_id" ∨ Gen.Peers.removePurgeGuard = "none") ∧
     Gen.Peers.keyForPick = "first" ∧ Gen.Peers.getByThroughPeers = true ∧
-    Gen.Peers.lockRecoversPoison = true := by decide
+    Gen.Peers.lockRecoversPoison = true ∧ Gen.Peers.registryTimersOrThreads = 0 := by decide
 
 /-! ### composition with the connection lifecycle (C15) -/
 
